@@ -452,6 +452,7 @@ func (o *objStore) List(ctx context.Context, prefix string) ([]string, error) {
 type jobRec struct {
 	idx    int
 	node   *simrt.Node
+	part   string // database/partition the job works on
 	files  int
 	killed bool
 	done   bool
@@ -559,7 +560,7 @@ func hookRunJob(ctx context.Context, cfg *compaction.SubprocessJobConfig, logger
 	if err := json.Unmarshal(raw, &child); err != nil {
 		return nil, fmt.Errorf("subprocess failed: %w (stderr: %s)", errors.New("exit status 1"), "error: invalid job config: "+err.Error())
 	}
-	j := &jobRec{idx: len(p.jobs), files: len(cfg.Files)}
+	j := &jobRec{idx: len(p.jobs), files: len(cfg.Files), part: cfg.Database + "/" + cfg.PartitionPath}
 	if p.colocate {
 		j.node = p.sn
 	} else {
